@@ -23,11 +23,20 @@ SHRINK = False
 IMPL_TIMEOUT = 2400
 
 
-def build(t, tr, offs, behaviour, n, tag):
+def build(t, tr, offs, behaviour, n, tag, mon="before"):
     peer = netgen.PEER[t]
     N = netgen.hs_len(peer)
-    ops = [f"sock 1 {t}", "monitor 1", f"bind 1 {tr}"]
-    nev = 1  # Listening
+    # the monitor that must be told is the one INSTALLED when the handshake fails: installed before bind (the usual
+    # order), after bind, or installed before and REPLACED after bind
+    if mon == "before":
+        ops = [f"sock 1 {t}", "monitor 1", f"bind 1 {tr}"]
+        nev = 1  # Listening
+    elif mon == "after":
+        ops = [f"sock 1 {t}", f"bind 1 {tr}", "monitor 1"]
+        nev = 0
+    else:
+        ops = [f"sock 1 {t}", "monitor 1", f"bind 1 {tr}", "monitor 1"]
+        nev = 0
     # an established good client first
     ops += ["rawconn 1 ep#0", f"rawhs 1 {peer}", "rawwait 1 hs"]
     nev += 1
@@ -58,10 +67,10 @@ def build(t, tr, offs, behaviour, n, tag):
     nev += 1
     if t == "PULL":
         ops += ["rawmsg 2 6e6577", "recv 1"]
-    if t in ("PUSH",):
-        ops += ["send 1 68", "rawwait 1 msg", "send 1 69", "rawwait 2 msg"]
+    # (outgoing traffic of PUSH is not followed here: the rotation also contains the probe connections, which have
+    # gone — which message lands on which raw client is C10's subject, and a miss costs a 5 s wait)
     ops.append(f"events 1 {nev}")
-    c = Case(f"{tag}-{t}-{tr}-{behaviour}#{n}", "net", ops, [behaviour])
+    c = Case(f"{tag}-{t}-{tr}-{behaviour}{'' if mon == 'before' else '-monitor-' + mon}#{n}", "net", ops, [behaviour])
     c.expect = (len(offs) + 1 + 1, failed)
     return c
 
@@ -83,6 +92,14 @@ def cases(tier, rng):
                 for _ in range(2 if tier == "quick" else 10):
                     offs = [rng.choice(grid) for _ in range(rng.randint(2, 3))]
                     out.append(build(t, tr, offs, beh, n, "several"))
+                    n += 1
+    # the monitor installed AFTER bind / replaced after bind is the one that is told
+    for t in (["PULL", "REP"] if tier == "quick" else netgen.TYPES9):
+        N = netgen.hs_len(netgen.PEER[t])
+        for mon in ("after", "replaced"):
+            for beh in ("close", "garbage"):
+                for k in (0, 12, 64, N - 1):
+                    out.append(build(t, "tcp4", [k], beh, n, "offset", mon=mon))
                     n += 1
     # connections ABORTED (RST) right after connect, in bursts: some resets arrive before the accept loop has taken the
     # connection (then the per-connection setup fails inside the accept loop itself) — each must fail only itself
